@@ -41,6 +41,7 @@ table = [
  ("status reports a tracked path as deleted when a directory on the way", "C13", "bounded[statusCmd_RunE]: a tracked d/x was not reported as deleted after d had become a regular file (stat fails with ENOTDIR, which is not IsNotExist)"),
  ("paths are converted with filepath.ToSlash", "C04", "bounded[addCmd_RunE]: a file whose name contains a backslash was staged under the name with '/' instead (strings.ReplaceAll on every platform)"),
  ("commit does not take an unreadable branch file for a missing one", "C16", "cmd.commit#iofail: when the read of the current branch's file failed (EIO, EACCES ...) commit() went on as for the first commit: it wrote a commit without parent, moved the branch to it and reported success (shown on the binary with strace fault injection: rc=0, tip without parent line, log lists one commit)"),
+ ("restore --staged of a file staged over a directory of HEAD", "C09", "cmd.restoreIndex#post[file-id]: with a file staged at a path where HEAD has a directory, restore --staged <path> staged the directory's TREE id under that path and left the directory's files unstaged (shown on the binary: ls-files -s then names a tree); found by the author of seed C03-6 on the unchanged tree"),
  ("restore checks every argument", "C18", "bounded[restoreCmd_RunE]: refused only after earlier arguments had been restored"),
 ]
 log = subprocess.run(["git","-C","/repo","log","--format=%h %s"],capture_output=True,text=True).stdout.splitlines()
